@@ -124,7 +124,10 @@ fn exec(re: &Regex, case: &Case, lim: LimitOverride, monitor: bool) -> Exec {
     } else {
         None
     };
+    budget::install();
+    budget::arm(budget::DEFAULT_INSNS, u64::MAX);
     let out = call(re, case);
+    budget::disarm();
     verif::set_observer(None);
     verif::set_fault_plan(Vec::new());
     let stats = verif::take_run_stats();
@@ -517,7 +520,8 @@ fn job(seed: u64, i: u64, cap: usize) -> (JobOut, Option<Violation>) {
         let (pattern, ast) = if k == 0 && i % 2 == 0 {
             (gen::CORPUS[((i / 2) as usize) % gen::CORPUS.len()].to_string(), None)
         } else {
-            let ast = gen::gen_pattern(&mut rng, &cfg);
+            // a third of the generated patterns are aimed at the loop lowering (DESIGN 3.4)
+            let ast = if k == 1 || (k == 2 && i % 3 == 0) { gen::gen_loop_pattern(&mut rng, &cfg) } else { gen::gen_pattern(&mut rng, &cfg) };
             (ast.render(), Some(ast))
         };
         let Some(re) = compile(&pattern) else { continue };
